@@ -403,3 +403,365 @@ def c02_oracle(case, r):
             seen.add(sig)
             out.append((sig, text))
     return out
+
+
+# ---------------------------------------------------------------------------------------------- C04
+def transitive_deps(pd):
+    """{test path: set of test paths it depends on, directly or not} (valid graphs only)."""
+    direct = {}
+    for path, s, dis in walk_suites(pd):
+        for t in s.get("tests", []):
+            direct[path + "." + t["name"]] = list(t.get("deps", []))
+    res = {}
+    for t in direct:
+        seen, todo = set(), list(direct[t])
+        while todo:
+            d = todo.pop()
+            if d in seen:
+                continue
+            seen.add(d)
+            todo += direct.get(d, [])
+        res[t] = seen
+    return res, direct
+
+
+def c04_oracle(case, r):
+    hits = []
+    oc = r.get("outcome") or ["?"]
+    pd = case.get("scheduled_project") or case["project"]
+    if case.get("expect_rejected"):
+        if oc[0] != "rejected" or oc[1] != "ValidationError":
+            hits.append(("bad-graph-not-rejected", "a project with %s dependencies was not rejected by a ValidationError: %s" % (
+                case["expect_rejected"], oc[:2])))
+        if r.get("trace") or r.get("body_starts"):
+            hits.append(("bad-graph-executed", "something was executed although the dependency graph is invalid"))
+        return hits
+    if oc[0] == "rejected":
+        hits.append(("valid-graph-rejected", "a valid dependency graph was rejected: %s" % (oc[2][:200],)))
+        return hits
+    if oc[0] != "returned" or not r.get("report"):
+        return hits
+    trans, direct = transitive_deps(pd)
+    status = dict(report_tests(r["report"]))
+    details = {}
+
+    def go(s, prefix):
+        path = prefix + s["name"]
+        for t in s["tests"]:
+            details[path + "." + t["name"]] = t["status_details"]
+        for sub in s["suites"]:
+            go(sub, path + ".")
+    for s in r["report"]["suites"]:
+        go(s, "")
+    body, fin, init_fin = {}, {}, {}
+    for i, a in enumerate(r.get("trace") or []):
+        if a[1] == "body_begin":
+            body[a[2]] = i
+        elif a[1] == "finish":
+            if a[2][0] == "TestTask":
+                fin[a[2][1]] = i
+            elif a[2][0] == "SuiteInitializationTask":
+                init_fin[a[2][1]] = i
+    force = bool(case.get("options", {}).get("force_disabled"))
+    for t, deps in trans.items():
+        if t in body:
+            for d in deps:
+                if d not in fin or fin[d] > body[t]:
+                    hits.append(("started-before-dependency-finished", "test %s started before its dependency %s had finished" % (t, d)))
+                if status.get(d) not in ("passed", "disabled"):
+                    hits.append(("executed-despite-failed-dependency", "test %s was executed although its dependency %s is %s" % (t, d, status.get(d))))
+            sp = t.rsplit(".", 1)[0]
+            if sp in init_fin and init_fin[sp] > body[t]:
+                hits.append(("started-before-suite-setup-finished", "test %s started before the setup of its suite finished" % t))
+        bad = [d for d in direct.get(t, []) if status.get(d) not in ("passed", "disabled")]
+        if bad and status.get(t) not in ("skipped", "disabled"):
+            hits.append(("not-skipped-despite-failed-dependency", "test %s has status %s although its dependency %s is %s" % (
+                t, status.get(t), bad[0], status.get(bad[0]))))
+        if bad and status.get(t) == "skipped" and not details.get(t):
+            hits.append(("skipped-without-reason", "test %s was skipped because of %s but carries no reason" % (t, bad[0])))
+    seen, out = set(), []
+    for sig, text in hits:
+        if sig not in seen:
+            seen.add(sig)
+            out.append((sig, text))
+    return out
+
+
+# ---------------------------------------------------------------------------------------------- C06
+import re as _re
+
+
+def _owner_location(tag):
+    """'body:s1.t2#0' -> ('test', 's1.t2'); fixtures -> None (they run wherever they are set up)."""
+    kind, rest = tag.split(":", 1)
+    what = rest.split("#")[0]
+    return {"body": ("test", what), "setup_test": ("test", what), "teardown_test": ("test", what),
+            "setup_suite": ("suite_setup", what), "teardown_suite": ("suite_teardown", what)}.get(kind)
+
+
+def _tag_of(text):
+    m = _re.match(r"^(.*)\|(?:step)?(\d+)$", text or "")
+    return (m.group(1), int(m.group(2))) if m else None
+
+
+def expected_steps(pd):
+    """{(tag, payload): expected step description} for the logs of bodies and hooks: the step that is current in the
+    emitting thread according to the script itself (last set_step of that thread, else the step inherited at creation)."""
+    exp = {}
+
+    def walk(script, tag_base, tp, current):
+        tag = tag_base + ("" if not tp else "#" + ".".join(map(str, tp)))
+        nspawn = 0
+        for a in script:
+            if a[0] == "step":
+                current = "%s|step%d" % (tag, a[1])
+            elif a[0] in ("log", "check", "url", "attach"):
+                exp[(tag, a[2] if a[0] in ("log", "check") else a[1])] = current
+            elif a[0] == "spawn":
+                walk(a[1], tag_base, tp + (nspawn,), current)
+                nspawn += 1
+            elif a[0] == "raise":
+                break
+    # only test bodies: a body always starts with set_step(<test description>); hooks and fixtures share the step of their
+    # phase with whatever ran before them in the same thread, which is the thread's current step as well
+    for path, s, dis in walk_suites(pd):
+        for t in s.get("tests", []):
+            walk(t["body"], "body:" + path + "." + t["name"], (), "desc of " + t["name"])
+    return exp
+
+
+def c06_oracle(case, r):
+    hits = []
+    if (r.get("outcome") or ["?"])[0] != "returned" or not r.get("report"):
+        return hits
+    exp_steps = expected_steps(case.get("scheduled_project") or case["project"])
+    # 1. events: the location of every user log is the location of the code that emitted it; threads are not confused
+    thread_of_tag = {}
+    for ev in r.get("events") or []:
+        if ev[0] not in ("log", "check", "log_url", "log_attachment"):
+            continue
+        d = {x[0]: x[1] for x in ev[1:] if isinstance(x, list) and len(x) == 2 and isinstance(x[0], str)}
+        loc = next((x for x in ev[1:] if isinstance(x, list) and x and x[0] == "loc"), None)
+        text = d.get("log_message") or d.get("check_description") or d.get("url_description") or d.get("attachment_description")
+        tg = _tag_of(text)
+        if not tg:
+            continue
+        want = _owner_location(tg[0])
+        if want and (LOC_NAMES[loc[1]], loc[2]) != want:
+            hits.append(("log-in-wrong-location", "a log of %s was emitted with the location %s %s" % (tg[0], LOC_NAMES[loc[1]], loc[2])))
+        th = d.get("thread")
+        prev = thread_of_tag.setdefault(tg[0], th)
+        if want and prev != th:
+            hits.append(("log-with-wrong-thread", "logs of %s carry two different thread ids" % tg[0]))
+        step = d.get("step")
+        stg = _tag_of(step)
+        if stg and stg[0] != tg[0] and "#" in tg[0] and stg[0].split("#")[0] != tg[0].split("#")[0]:
+            hits.append(("log-in-foreign-step", "a log of %s is filed in a step set by %s" % (tg[0], stg[0])))
+    # 2. report: every log lies in the result of its owner, in emission order per thread
+    results = _results_of_report(r["report"])
+    for key, res in results.items():
+        last = {}
+        for st in res["steps"]:
+            for l in st["logs"]:
+                text = l[2] if l[0] == "log" else l[1]
+                tg = _tag_of(text)
+                if not tg:
+                    continue
+                want = _owner_location(tg[0])
+                if want and want != key:
+                    hits.append(("log-leaked-to-other-result", "a log of %s is recorded in %s %s" % (tg[0], key[0], key[1])))
+                want_step = exp_steps.get(tg)
+                if want_step is not None and st["description"] != want_step:
+                    hits.append(("log-in-wrong-step", "a log of %s (payload %d) is recorded in step %r instead of %r, the step current "
+                                 "in the emitting thread" % (tg[0], tg[1], st["description"], want_step)))
+                if tg[0] in last and last[tg[0]] > tg[1]:
+                    hits.append(("log-order-changed", "logs of %s are not in emission order in %s %s" % (tg[0], key[0], key[1])))
+                last[tg[0]] = tg[1]
+    # 3. attachments: distinct names, existing files with the written content
+    names = []
+    for key, res in results.items():
+        for st in res["steps"]:
+            for l in st["logs"]:
+                if l[0] == "attachment":
+                    names.append((l[2], l[1]))
+    if len(set(n for n, _ in names)) != len(names):
+        hits.append(("attachment-name-collision", "two attachments share a file name"))
+    att = r.get("attachments") or {}
+    for fn, desc in names:
+        if fn not in att:
+            hits.append(("attachment-file-missing", "the report references %s which does not exist" % fn))
+        elif att[fn] != desc:
+            hits.append(("attachment-content-wrong", "attachment %s does not hold what was written" % fn))
+    seen, out = set(), []
+    for sig, text in hits:
+        if sig not in seen:
+            seen.add(sig)
+            out.append((sig, text))
+    return out
+
+
+# ---------------------------------------------------------------------------------------------- C07
+RESULT_BRACKETS = {"test_session_setup_start": ("test_session_setup_end", ("session_setup", "")),
+                   "test_session_teardown_start": ("test_session_teardown_end", ("session_teardown", "")),
+                   "suite_setup_start": ("suite_setup_end", "suite_setup"), "suite_teardown_start": ("suite_teardown_end", "suite_teardown"),
+                   "test_start": ("test_end", "test")}
+
+
+def _event_result(ev):
+    """The result (location key) an event belongs to, or None for suite / session level events."""
+    name = ev[0]
+    if name in ("test_session_setup_start", "test_session_setup_end"):
+        return ("session_setup", "")
+    if name in ("test_session_teardown_start", "test_session_teardown_end"):
+        return ("session_teardown", "")
+    if name in ("suite_setup_start", "suite_setup_end"):
+        return ("suite_setup", ev[1])
+    if name in ("suite_teardown_start", "suite_teardown_end"):
+        return ("suite_teardown", ev[1])
+    if name in ("test_start", "test_end", "test_skipped", "test_disabled"):
+        return ("test", ev[1])
+    loc = next((x for x in ev[1:] if isinstance(x, list) and x and x[0] == "loc"), None)
+    if loc is not None:
+        return (LOC_NAMES[loc[1]], loc[2])
+    return None
+
+
+def _suite_of(key):
+    if key[0] == "test":
+        return key[1].rsplit(".", 1)[0]
+    if key[0] in ("suite_setup", "suite_teardown"):
+        return key[1]
+    return None
+
+
+def c07_oracle(case, r, stream=None, sequential=None):
+    """The grammar of DESIGN.md A.1 on the stream delivered to a backend."""
+    hits = []
+    if (r.get("outcome") or ["?"])[0] != "returned":
+        return hits
+    evs = stream if stream is not None else (r.get("events") or [])
+    if not evs:
+        return [("empty-stream", "the backend received nothing")]
+    if evs[0][0] != "test_session_start":
+        hits.append(("session-start-not-first", "the first event is %s" % evs[0][0]))
+    if evs[-1][0] != "test_session_end":
+        hits.append(("session-end-not-last", "the last event is %s" % evs[-1][0]))
+    if sum(1 for e in evs if e[0] in ("test_session_start", "test_session_end")) != 2:
+        hits.append(("session-brackets-repeated", "session start / end are not delivered exactly once"))
+    sstart, send = {}, {}
+    open_results, closed_results, single = {}, set(), set()
+    open_steps = {}           # (result key, thread) -> [description, nlogs]
+    for i, ev in enumerate(evs):
+        name = ev[0]
+        if name == "suite_start":
+            if ev[1] in sstart:
+                hits.append(("suite-started-twice", "suite %s started twice" % ev[1]))
+            sstart[ev[1]] = i
+            parent = ev[1].rsplit(".", 1)[0] if "." in ev[1] else None
+            if parent and (parent not in sstart or parent in send):
+                hits.append(("suite-outside-parent", "suite %s starts outside its parent suite" % ev[1]))
+            continue
+        if name == "suite_end":
+            if ev[1] not in sstart:
+                hits.append(("suite-end-without-start", "suite %s ends before it starts" % ev[1]))
+            if ev[1] in send:
+                hits.append(("suite-ended-twice", "suite %s ended twice" % ev[1]))
+            send[ev[1]] = i
+            for k in open_results:
+                if _suite_of(k) and (_suite_of(k) == ev[1] or _suite_of(k).startswith(ev[1] + ".")):
+                    hits.append(("suite-ended-with-open-result", "suite %s ends while %s %s is still open" % (ev[1], k[0], k[1])))
+            continue
+        key = _event_result(ev)
+        if key is None:
+            continue
+        su = _suite_of(key)
+        if su is not None:
+            anc = su
+            while True:
+                if anc not in sstart or anc in send:
+                    hits.append(("event-outside-suite", "%s of %s %s delivered outside suite %s" % (name, key[0], key[1], anc)))
+                    break
+                if "." not in anc:
+                    break
+                anc = anc.rsplit(".", 1)[0]
+        if name in RESULT_BRACKETS:
+            if key in open_results or key in closed_results or key in single:
+                hits.append(("result-started-twice", "%s %s started twice" % key))
+            open_results[key] = i
+        elif name in ("test_session_setup_end", "test_session_teardown_end", "suite_setup_end", "suite_teardown_end", "test_end"):
+            if key not in open_results:
+                hits.append(("result-end-without-start", "%s %s ended without having started" % key))
+            open_results.pop(key, None)
+            closed_results.add(key)
+            for (k, th), st in list(open_steps.items()):
+                if k == key:
+                    hits.append(("result-ended-with-open-step", "%s %s ended while step %r is open" % (key[0], key[1], st[0])))
+                    del open_steps[(k, th)]
+        elif name in ("test_skipped", "test_disabled"):
+            if key in open_results or key in closed_results or key in single:
+                hits.append(("single-event-test-has-more", "test %s has other events besides %s" % (key[1], name)))
+            single.add(key)
+        else:
+            d = {x[0]: x[1] for x in ev[1:] if isinstance(x, list) and len(x) == 2 and isinstance(x[0], str)}
+            th = d.get("thread")
+            if key in closed_results or key in single:
+                hits.append(("event-after-result-end", "%s delivered for %s %s after its end" % (name, key[0], key[1])))
+            if key not in open_results and key not in closed_results and key not in single:
+                hits.append(("event-before-result-start", "%s delivered for %s %s before its start" % (name, key[0], key[1])))
+            if name == "step_start":
+                if (key, th) in open_steps:
+                    hits.append(("step-started-in-open-step", "thread %s starts a step in %s %s while %r is open" % (th, key[0], key[1], open_steps[(key, th)][0])))
+                open_steps[(key, th)] = [d.get("step_description"), 0]
+            elif name == "step_end":
+                st = open_steps.pop((key, th), None)
+                if st is None:
+                    hits.append(("step-end-without-start", "thread %s ends a step it did not start in %s %s" % (th, key[0], key[1])))
+                elif st[0] != d.get("step"):
+                    hits.append(("step-end-mismatch", "step %r ended as %r" % (st[0], d.get("step"))))
+                elif st[1] == 0:
+                    hits.append(("empty-step-not-elided", "an empty step %r was delivered" % (st[0],)))
+            else:
+                st = open_steps.get((key, th))
+                if st is None:
+                    hits.append(("log-outside-step", "%s of thread %s in %s %s lies outside any open step of that thread" % (name, th, key[0], key[1])))
+                else:
+                    if st[0] != d.get("step"):
+                        hits.append(("log-with-wrong-step", "%s carries step %r while %r is open" % (name, d.get("step"), st[0])))
+                    st[1] += 1
+    for key in open_results:
+        hits.append(("start-without-end", "%s %s has a start but no end" % key))
+    for s in sstart:
+        if s not in send:
+            hits.append(("suite-start-without-end", "suite %s has a start but no end" % s))
+    # setups before / teardowns after the tests of their suite
+    first_test, last_test = {}, {}
+    for i, ev in enumerate(evs):
+        key = _event_result(ev)
+        if key and key[0] == "test":
+            s = key[1].rsplit(".", 1)[0]
+            first_test.setdefault(s, i)
+            last_test[s] = i
+    for i, ev in enumerate(evs):
+        if ev[0] == "suite_setup_end" and ev[1] in first_test and first_test[ev[1]] < i:
+            hits.append(("test-before-suite-setup-end", "a test of %s was delivered before the end of the suite setup" % ev[1]))
+        if ev[0] == "suite_teardown_start" and ev[1] in last_test and last_test[ev[1]] > i:
+            hits.append(("test-after-suite-teardown-start", "a test of %s was delivered after the start of the suite teardown" % ev[1]))
+    if sequential if sequential is not None else int(case.get("options", {}).get("nb_threads", 1)) == 1:
+        # events of different results never interleave (threads of one test may)
+        seen_keys, cur = [], None
+        for ev in evs:
+            key = _event_result(ev)
+            if key is None:
+                cur = None
+                continue
+            if key != cur:
+                if key in seen_keys:
+                    hits.append(("results-interleaved", "events of %s %s are not contiguous with one worker thread" % key))
+                seen_keys.append(key)
+                cur = key
+    seen, out = set(), []
+    for sig, text in hits:
+        if sig not in seen:
+            seen.add(sig)
+            out.append((sig, text))
+    return out
